@@ -142,6 +142,100 @@ func main() {
 		ntx := 1 + r.Intn(3)
 		var ps []planned
 		var txs [][]byte
+		// 1 block in 4: an ownership hand-over and its consequences inside ONE block.  The owner of
+		// gov/acl moves key X from owner A to owner B; then A and B both act on X in the same block (each
+		// transaction is judged against the ACL in the state left by the transaction before it).
+		if r.Chance(1, 4) && len(acl) > 0 {
+			ntx = 0
+			fee := int64(chain.DefaultFee)
+			add := func(signer chain.Key, msg sdk.ProtoMsg, head, kind string) {
+				txs = append(txs, chain.SignTx("verif", signer, msg, fee, entropy, ""))
+				entropy++
+				ps = append(ps, planned{head, kind + "-sameblock"})
+			}
+			keyOf := func(a sdk.Address) (chain.Key, bool) {
+				for _, c := range owners {
+					if c.Addr.Equals(a) {
+						return c, true
+					}
+				}
+				return chain.Key{}, false
+			}
+			paramTx := func(signer chain.Key, key string, raw []byte, val string) {
+				_, reg := names[key]
+				add(signer, &govTypes.MsgChangeParam{FromAddress: signer.Addr, ParamKey: key, ParamVal: raw},
+					fmt.Sprintf("param %s %s %v %v %s %d", signer.Addr, key, strings.Contains(key, "/"), reg, val, fee), "param")
+			}
+			aclTx := func(signer chain.Key, na govTypes.ACL) {
+				raw, _ := cdc.MarshalJSON(na)
+				paramTx(signer, "gov/acl", raw, fmt.Sprintf("acl:%s:%s", digest(sdk.MustSortJSON(raw)), aclStr(na)))
+			}
+			// X: a numeric parameter, gov/upgrade, gov/daoOwner, or gov/acl itself
+			var numeric []string
+			for _, p := range acl {
+				if numStr.MatchString(vals[p.Key]) {
+					numeric = append(numeric, p.Key)
+				}
+			}
+			x := []string{"gov/upgrade", "gov/daoOwner", "gov/acl", "gov/acl"}[r.Intn(4)]
+			if len(numeric) > 0 && r.Chance(1, 2) {
+				x = numeric[r.Intn(len(numeric))]
+			}
+			aclOwner, ok1 := keyOf(acl.GetOwner("gov/acl"))
+			a, ok2 := keyOf(acl.GetOwner(x))
+			if ok1 && ok2 {
+				b := owners[r.Intn(3)]
+				for b.Addr.Equals(a.Addr) {
+					b = owners[r.Intn(3)]
+				}
+				if r.Bool() { // some gov message first (the hand-over itself is also one)
+					paramTx(w.Accts[0], "pos/MaxValidators", []byte(`"7"`), "plain:"+digest([]byte(`"7"`)))
+				}
+				na := append(govTypes.ACL{}, acl...)
+				na.SetOwner(x, b.Addr)
+				aclTx(aclOwner, na)
+				actors := []chain.Key{a, b}
+				if r.Bool() {
+					actors = []chain.Key{b, a}
+				}
+				if r.Chance(1, 3) {
+					actors = append(actors, actors[0])
+				}
+				for _, who := range actors {
+					switch {
+					case x == "gov/upgrade":
+						u := govTypes.Upgrade{Height: 1, Version: "FEATURE", Features: []string{fmt.Sprintf("ZTEST%d:%d", r.Intn(3), 900000+r.Intn(1000))}}
+						add(who, chain.MsgUpgrade(who.Addr, u), fmt.Sprintf("upgrade %s %d", who.Addr, fee), "upgrade")
+					case x == "gov/daoOwner":
+						nd := owners[r.Intn(3)].Addr
+						raw, _ := cdc.MarshalJSON(nd)
+						paramTx(who, x, raw, fmt.Sprintf("owner:%s:%s", digest(sdk.MustSortJSON(raw)), nd.String()))
+						// and the DAO funds right after: by this actor and by the DAO owner of the block start
+						to := rcpts[r.Intn(len(rcpts))]
+						amt := int64(1 + r.Intn(100000))
+						burn := r.Chance(1, 3)
+						for _, d := range []chain.Key{who, owners[1]} {
+							add(d, chain.MsgDAO(d.Addr, to, amt, burn), fmt.Sprintf("dao %s %s %d %v %d", d.Addr, to, amt, burn, fee), "dao")
+						}
+					case x == "gov/acl":
+						// a second hand-over by the old / the new owner of gov/acl (of some other key, to itself)
+						y := acl[r.Intn(len(acl))].Key
+						nb := append(govTypes.ACL{}, na...)
+						nb.SetOwner(y, who.Addr)
+						aclTx(who, nb)
+					default:
+						v, _ := strconv.ParseInt(numStr.FindStringSubmatch(vals[x])[1], 10, 64)
+						if v%2 == 0 {
+							v++
+						} else {
+							v--
+						}
+						raw := []byte(fmt.Sprintf(`"%d"`, v))
+						paramTx(who, x, raw, "plain:"+digest(sdk.MustSortJSON(raw)))
+					}
+				}
+			}
+		}
 		for i := 0; i < ntx; i++ {
 			signer := signers[r.Intn(len(signers))]
 			fee := int64(chain.DefaultFee)
